@@ -64,7 +64,7 @@ func runC19(ctx *Ctx) {
 	if ctx.Thorough {
 		vectors = append(vectors, [5]int{3, 3, 3, 3, 3}, [5]int{3, 1, 1, 0, 2}, [5]int{3, 0, 0, 0, 0}, [5]int{2, 2, 2, 0, 0}, [5]int{2, 2, 0, 2, 0})
 	}
-	kinds := []string{"close", "garbage-ff", "garbage-00", "truncated", "garbage-2047", "garbage-2048", "garbage-4096", "bad-choice", "bad-length"}
+	kinds := []string{"close", "garbage-ff", "garbage-00", "truncated", "garbage-2047", "garbage-2048", "garbage-4096", "bad-choice", "bad-length", "bad-count"}
 	_, acfg := n2config(explore.Replay(nil))
 	type job struct {
 		v    [5]int
@@ -130,7 +130,7 @@ func runC19(ctx *Ctx) {
 			r.Set(fmt.Sprintf("traces_validated_realtime_%v", v), same)
 		}
 	}
-	r.Rule = fmt.Sprintf("for %d count vectors, every downlink message index k of the fault-free conversation (K = 6..19) x {AMF closes instead of sending message k; sends ff ff ff; sends 00; sends the first half of the message; sends 2047 / 2048 / 4096 octets of ff (just below, at and above the emulator's read buffer); sends the message with its PDU choice index destroyed; with its outer length determinant pointing beyond the end} = %d fault points, each run as the real process under strace (sendmsg/recvmsg on the N2 descriptor = ground truth of what the emulator consumed and sent); "+
+	r.Rule = fmt.Sprintf("for %d count vectors, every downlink message index k of the fault-free conversation (K = 6..19) x {AMF closes instead of sending message k; sends ff ff ff; sends 00; sends the first half of the message; sends 2047 / 2048 / 4096 octets of ff (just below, at and above the emulator's read buffer); sends the message with its PDU choice index destroyed; with its outer length determinant pointing beyond the end; with its IE count 256 too large} = %d fault points, each run as the real process under strace (sendmsg/recvmsg on the N2 descriptor = ground truth of what the emulator consumed and sent); "+
 		"oracle: the process terminates within a 30 s horizon; if a recvmsg returned 0 / an error / the faulty octets, or a sendmsg failed (the emulator observed the fault), then exit status != 0, no completion banner and no sendmsg afterwards; exit 0 only if the faulty message was never consumed; the message after Registration Complete is exempt for the garbage kinds (deliberately ignored); faulty octets that the reference codec still decodes are out of scope; non-trivial = all; distinct = (vector, k, kind)", len(vectors), len(jobs))
 	r.Assume("strace -f is the monitor (ptrace available in the sandbox)", "test mode reports no sessions (only traffic mode prints them): 'reports a session it did not obtain' has nothing to observe here",
 		"time shim as in C01; thorough replays two conversations with real sleeps and requires byte-identical uplink histories")
@@ -158,6 +158,17 @@ func c19faulty(kind string, orig []byte) []byte {
 	case "bad-choice":
 		b := append([]byte{}, orig...)
 		b[0] = 0x60 // NGAP-PDU choice index 3 of 0..2
+		return b
+	case "bad-count":
+		// the 16-bit number of IEs made 256 too large (the message then claims IEs that are not there)
+		b := append([]byte{}, orig...)
+		p := 4 // choice, procedure code, criticality, one-octet length
+		if len(b) > 3 && b[3]&0x80 != 0 {
+			p = 5
+		}
+		if len(b) > p+2 {
+			b[p+1] ^= 0x01
+		}
 		return b
 	case "bad-length":
 		b := append([]byte{}, orig...)
